@@ -3,6 +3,7 @@
 Correspondence: the real encoder/decoder classes of /repo against the compiled Lean model
 (`drv_c08`), request by request, compared as exact strings.  Oracle: the property statement
 evaluated directly on the real classes (written from the property text / docstrings)."""
+import collections
 import itertools
 
 from harness.common import lean_int, lean_list, wl
@@ -11,26 +12,70 @@ PID = 'C08'
 MODULES = ['NoteSeqVerif.Props.C08']
 EXE = 'drv_c08'
 THEOREMS = [
-    'NSV.C08.lookback_decode_label', 'NSV.C08.lookback_label_precedence', 'NSV.C08.lookback_label_farthest',
-    'NSV.C08.lookback_label_in_range', 'NSV.C08.lookback_input_blocks', 'NSV.C08.lookback_input_size_exact',
-    'NSV.C08.onehot_decode_label', 'NSV.C08.onehot_label_in_range', 'NSV.C08.onehot_input_block',
-    'NSV.C08.onehot_input_size_exact', 'NSV.C08.onehot_index_input',
-    'NSV.C08.encode_aligned', 'NSV.C08.encode_total', 'NSV.C08.cond_encode_aligned', 'NSV.C08.cond_encode_length_mismatch',
-    'NSV.C08.lookback_generation_loop_total', 'NSV.C08.onehot_generation_loop_total',
+    'NSV.C08.lookback_decode_label',
+    'NSV.C08.lookback_label_in_range',
+    'NSV.C08.lookback_label_precedence',
+    'NSV.C08.lookback_label_farthest',
+    'NSV.C08.lookback_input_blocks',
+    'NSV.C08.lookback_input_blocks_total',
+    'NSV.C08.lookback_input_size_exact',
+    'NSV.C08.counterBit_pm',
+    'NSV.C08.repFlag_01',
+    'NSV.C08.counterBit_testBit',
+    'NSV.C08.oneHotVec_get',
+    'NSV.C08.oneHotVec_count',
+    'NSV.C08.oneHotVec_length',
+    'NSV.C08.lookback_generation_loop_total',
     'NSV.C08.labels_to_num_steps_eq',
-    'NSV.C08.melody_lookback_decode_label', 'NSV.C08.melody_lookback_generation_total',
-    'NSV.C08.keymelody_decode_label', 'NSV.C08.keymelody_label_in_range', 'NSV.C08.keymelody_label_precedence',
-    'NSV.C08.keymelody_generation_loop_total', 'NSV.C08.keymelody_input_size_exact',
-    'NSV.C08.optimalNumSegments_divides', 'NSV.C08.noteperf_decode_label', 'NSV.C08.noteperf_label_in_range',
-    'NSV.C08.noteperf_encode_decode', 'NSV.C08.noteperf_input_blocks', 'NSV.C08.noteperf_num_steps',
-    'NSV.C08.pianoroll_decode_label', 'NSV.C08.pianoroll_label_in_range', 'NSV.C08.pianoroll_encode_decode',
+    'NSV.C08.lookback_roundtrip',
+    'NSV.C08.onehot_decode_label',
+    'NSV.C08.onehot_label_in_range',
+    'NSV.C08.onehot_input_block',
+    'NSV.C08.onehot_input_size_exact',
+    'NSV.C08.onehot_index_input',
+    'NSV.C08.onehot_generation_loop_total',
+    'NSV.C08.encode_aligned',
+    'NSV.C08.encode_total',
+    'NSV.C08.lookback_encode_total',
+    'NSV.C08.cond_input_size_exact',
+    'NSV.C08.cond_encode_aligned',
+    'NSV.C08.cond_encode_length_mismatch',
+    'NSV.C08.keymelody_decode_label',
+    'NSV.C08.keymelody_label_in_range',
+    'NSV.C08.keymelody_label_precedence',
+    'NSV.C08.keymelody_generation_loop_total',
+    'NSV.C08.keymelody_input_size_exact',
+    'NSV.C08.note_keys_wellformed',
+    'NSV.C08.optimalNumSegments_divides',
+    'NSV.C08.npInit_spec',
+    'NSV.C08.noteperf_label_in_range',
+    'NSV.C08.noteperf_decode_label',
+    'NSV.C08.noteperf_encode_decode',
+    'NSV.C08.noteperf_input_blocks',
+    'NSV.C08.noteperf_num_steps',
+    'NSV.C08.noteperf_generation_total',
+    'NSV.C08.pianoroll_label_in_range',
+    'NSV.C08.pianoroll_decode_label',
+    'NSV.C08.pianoroll_encode_decode',
     'NSV.C08.pianoroll_input_size_exact',
-    'NSV.C08.modulo_decode_label', 'NSV.C08.modulo_input_size_exact',
+    'NSV.C08.melody_valid',
+    'NSV.C08.melody_decode_total',
+    'NSV.C08.melody_lookback_decode_label',
+    'NSV.C08.melody_lookback_generation_total',
+    'NSV.C08.modulo_valid',
+    'NSV.C08.modulo_decode_label',
+    'NSV.C08.modulo_input_size_exact',
 ]
 
 
 # ----------------------------------------------------------------------------- generated constants
 def generate(chk):
+    # the melody / performance one-hot instances are C09's source-regenerated definitions: refresh them too
+    try:
+        from harness import c09
+        c09.generate(chk)
+    except Exception as e:  # pylint: disable=broad-except
+        chk.translit['C09 definitions used by C08'] = 'could not be regenerated: %s' % e
     from note_seq import constants as c, encoder_decoder as ed, performance_lib as pl
     from note_seq import performance_encoder_decoder as ped
     PE = pl.PerformanceEvent
@@ -231,6 +276,19 @@ class Bad(Exception):
     pass
 
 
+BRANCH = collections.Counter()   # which label branches / boundary coincidences the valid streams actually hit
+
+
+def note_branch(ds, evs, p, m, virtual):
+    BRANCH['virtual-prehistory' if virtual else 'lookback-repeat' if m else 'plain-class'] += 1
+    if len(set(m)) >= 2:
+        BRANCH['two-or-more-lookbacks-match'] += 1
+    if any(p == d for d in ds):
+        BRANCH['position==distance'] += 1
+    if any(p < d for d in ds):
+        BRANCH['history-shorter-than-a-distance'] += 1
+
+
 def need(cond, msg):
     if not cond:
         raise Bad(msg)
@@ -240,8 +298,10 @@ def expected_lookback_label(nplain, ds, evs, p, is_default, plain):
     """documented precedence, index form: the greatest lookback index whose distance matches (the last
     distance also matches a default event against the virtual all-default prehistory); plain class last."""
     m = [i for i, d in enumerate(ds) if p - d >= 0 and evs[p] == evs[p - d]]
-    if ds and p < ds[-1] and is_default(evs[p]):
+    virtual = bool(ds and p < ds[-1] and is_default(evs[p]))
+    if virtual:
         m.append(len(ds) - 1)
+    note_branch(ds, evs, p, m, virtual)
     if m:
         return nplain + max(m), m
     return plain(evs[p]), m
@@ -304,6 +364,17 @@ def oracle_generic(case):
         steps = enc.labels_to_num_steps(labels)
         need(steps == sum(oh.event_to_num_steps(e) for e in out), 'labels_to_num_steps = %r, generated sequence has %r steps'
              % (steps, sum(oh.event_to_num_steps(e) for e in out)))
+        if case.get('extend') and kind[0] != 'ohi':
+            # the real generation helper must do exactly "class_index_to_event against the history, then append"
+            import numpy as np
+            primer = evs[:case.get('primer', 0)]
+            want, got = list(primer), list(primer)
+            for l in labels:
+                want.append(enc.class_index_to_event(l, want))
+                sm = np.zeros((1, 1, nc))
+                sm[0][0][l] = 1.0
+                need(list(enc.extend_event_sequences([got], sm)) == [l], 'extend_event_sequences chose another class than the certain one')
+            need(got == want, 'extend_event_sequences produced %r, decoding each label against its history gives %r' % (got, want))
 
 
 def oracle_cond(case):
@@ -866,9 +937,6 @@ def malformed_requests(rng):
         raw = [(3, ms + 1), (3, ms), (4, 1), (4, bins + 1), (5, 3), (1, 127)]
         evs = [PE(t, v) for (t, v) in raw]
         show = lambda e: '%d:%d' % (e.event_type, e.event_value)  # noqa: E731
-        for p in range(-1, len(evs) + 1):
-            out.append(('mod %d %d all %s' % (bins, ms, evs_wire(['perf'], raw)), None))
-            out.pop()
         out.append(('mod %d %d all %s' % (bins, ms, evs_wire(['perf'], raw)),
                     ' '.join(triple(enc, evs, p, show, show_in=lambda v: mod_cells(enc, v)) for p in range(len(evs)))))
         nc = enc.num_classes
@@ -963,10 +1031,17 @@ def run(chk):
     # fixed regression cases of the two repaired defects (F-C08-1 / F-C08-2) and docstring examples
     for case in fixed_cases():
         add_case('fixed', case)
+    for e in chk.known:
+        case = known_case(e)
+        if case is not None:
+            chk.count('known-findings', e['id'], True)
+            bad = run_oracle(case)
+            if bad:
+                chk.fail('%s: %s' % (e['id'], bad), pub(case), finding=e['id'])
     flush()
 
     rng = chk.subrng('generic')
-    for i in range(chk.n(250, 4000)):
+    for i in range(chk.n(250, 10000)):
         case = rand_generic(rng)
         if i % 7 == 0 and len(case.get('labels', [])) <= 20 and case['kind'][0] != 'ohi':
             case['extend'] = True
@@ -977,25 +1052,25 @@ def run(chk):
             flush()
     flush()
     rng = chk.subrng('key')
-    for _ in range(chk.n(120, 2000)):
+    for _ in range(chk.n(120, 5000)):
         add_case('keymelody', rand_key(rng))
         if len(batch) > 2000:
             flush()
     flush()
     rng = chk.subrng('np')
-    for _ in range(chk.n(150, 3000)):
+    for _ in range(chk.n(150, 6000)):
         add_case('noteperf', np_labels(rng, rand_np(rng)))
     flush()
     rng = chk.subrng('pr')
-    for _ in range(chk.n(150, 3000)):
+    for _ in range(chk.n(150, 6000)):
         add_case('pianoroll', rand_pr(rng))
     flush()
     rng = chk.subrng('mod')
-    for _ in range(chk.n(80, 1500)):
+    for _ in range(chk.n(80, 3000)):
         add_case('modulo', rand_mod(rng))
     flush()
     rng = chk.subrng('cond')
-    for _ in range(chk.n(120, 2500)):
+    for _ in range(chk.n(120, 6000)):
         add_case('conditional', rand_cond(rng))
         if len(batch) > 3000:
             flush()
@@ -1008,11 +1083,8 @@ def run(chk):
         case['positions'] = []
         add_case('malformed', case, oracle=False)
     rng = chk.subrng('malformed')
-    for _ in range(chk.n(300, 6000)):
-        try:
-            reqs = malformed_requests(rng)
-        except Exception as e:  # pylint: disable=broad-except
-            raise
+    for _ in range(chk.n(300, 12000)):
+        reqs = malformed_requests(rng)
         for (rq, ans) in reqs:
             batch.append(('malformed', rq, ans, None))
         if len(batch) > 4000:
@@ -1026,6 +1098,7 @@ def run(chk):
         if len(batch) > 20000:
             flush()
     flush()
+    chk.notes['label_branches_hit_by_valid_streams'] = dict(BRANCH)
     chk.exhaustive = chk.thorough
 
 
@@ -1058,6 +1131,16 @@ def fixed_cases():
         {'family': 'key', 'cfg': [48, 84, [16, 32], 7], 'events': [-2] * 3 + [60, -2, 64, -1] + [-2] * 9 + [60, -2, 64, -1], 'labels': [39, 38, 36, 37, 0]},
         {'family': 'key', 'cfg': [0, 128, [2, 1], 3], 'events': [0, 0, -2, 0, 127, -1, -1], 'labels': [131, 130, 0, 127, 128, 129]},
     ]
+
+
+def known_case(entry):
+    """the concrete input a known_findings.json entry of C08 stands for"""
+    m = entry.get('match', {})
+    if m.get('labels') == [] and 'NotePerformance' in entry.get('what', ''):
+        return {'family': 'np', 'cfg': [8, 1000, 1000, 0, 127], 'events': [], 'labels': []}
+    if m.get('lookback_distances') == []:
+        return {'family': 'key', 'cfg': [48, 84, [], 7], 'events': [60, -2, -2, -1, 62, -2], 'labels': [36, 37, 12]}
+    return None
 
 
 def replay(chk, obj):
